@@ -90,6 +90,21 @@ var seedExpectations = []seedExpect{
 	{"C06-d", "C06", "order.pair", "tryFoldVectorBinaryOp"},
 	{"C13-d", "C13", "handlewalk.Block.walker", "traceStatementsForRefs"},
 	{"C12-d", "C12", "clone.fresh", "ExprCompose"},
+	{"C08-d", "C08", "scope.defafterinit", "collectStmtDeps"},
+	{"C15-d", "C15", "operands.Block.walker", "collectGlobalVarsFromStatements"},
+	{"C16-d", "C16", "names.sanitize", "namer.sanitize"},
+	{"C17-d", "C17", "operands.Block.walker", "collectGlobalVarsFromStatements"},
+	{"C19-d", "C19", "lex.nestdelim", "blockComment"},
+	// completed from the seed matrix (full construct identities)
+	{"C01-b", "C08", "reset.complete", "lower.Lowerer/lowerFunction:Lowerer.isInsideLoop"},
+	{"C04-b", "C04", "handlewalk.ExpressionHandle.remapper", "msl/internal/codegen.adjustExprHandles/ExpressionKind:ExprMath.Arg3"},
+	{"C06-b", "C06", "evalsel.goop", "wgsl/internal/lower.Lowerer.tryFoldBinaryOp/BinaryOperator#2:BinaryModulo"},
+	{"C08-b", "C08", "scope.defafterinit", "wgsl/internal/parser.collectStmtDeps:locals[s.Name]"},
+	{"C11-b", "C11", "astwalk.child", "wgsl/internal/parser.collectStmtDeps/Stmt:IfStmt.Else"},
+	{"C13-b", "C13", "handlewalk.Block.walker", "ir.traceStatementsForRefs/StatementKind:StmtSwitch.Cases[].Body"},
+	{"C14-c", "C14", "clone.fresh", "ir.CloneModuleForOverrides+ProcessOverrides:Functions[].LocalVars[].Init"},
+	{"C15-c", "C15", "operands.Block.walker", "spirv/internal/codegen.Backend.collectGlobalVarsFromStatements/StatementKind:StmtLoop.Continuing"},
+	{"C19-a", "C08", "scope.defafterinit", "wgsl/internal/parser.collectStmtDeps:locals[s.Name]"},
 	// hand-made positive controls (controls/)
 	{"globals-write", "C12", "globals.nowrite", "typeNameCache"},
 	{"rzsw-nomerge", "C02", "spirv.mergefirst", "emitImageLoadRZSW"},
